@@ -338,6 +338,11 @@ func (c *Case) files() map[string]string {
 				}
 			}
 			for k := 0; k < f.InitFuncs; k++ {
+				if (k+fi+pi)%3 == 1 {
+					// an init function that returns early: it ends itself, not the initialisation of the program
+					fmt.Fprintf(&sb, "func init() {\n\tif mark%d(%q) == 0 {\n\t\treturn\n\t}\n\tpanic(\"init ran past its return\")\n}\n", fi, c.mark(pi, f.Name, "init", k))
+					continue
+				}
 				fmt.Fprintf(&sb, "func init() {\n\tmark%d(%q)\n}\n", fi, c.mark(pi, f.Name, "init", k))
 			}
 			fmt.Fprintf(&sb, "func mark%d(s string) int {\n\tfmt.Println(s)\n\treturn 0\n}\n", fi)
